@@ -1,6 +1,6 @@
 (* 5G key hierarchy on the UE/network side: TS 33.220 B.2 KDF and TS 33.501 Annex A.2, A.4, A.6, A.7, A.8. *)
 From Coq Require Import NArith List Lia Bool.
-Require Import Bytes SHA256.
+Require Import Bytes AES SHA256 TS35206.
 Import ListNotations.
 Open Scope N_scope.
 
@@ -31,4 +31,21 @@ Definition derive (ck ik res rand sqn_xor_ak mcc mnc supi_digits:bytes) (ea ia:N
      k_nas_int := skipn 16 (kdf kamf 105 [[2]; [ia]]) |}.     (*               N-NAS-int-alg = 2 *)
 End KDF.
 
+(* ---- the network side of 5G AKA (TS 33.501 6.1.3.2): the UDM/ARPF runs Milenage on (K, OPc, RAND), the
+   AUSF/SEAF/AMF derive the tree.  P1 of A.2 is SQN xor AK, which is also what the first six octets of the
+   AUTN carry (TS 33.102 6.3.2).  The SUPI enters A.7 as the IMSI digits (TS 33.501 A.7.0: "P0 = IMSI or
+   NAI or GCI or GLI", for an IMSI its digits as a character string). *)
+Section Network.
+Variable E : bytes -> bytes -> bytes.
+Variable H : bytes -> bytes -> bytes.
+Definition network_keys (k opc rand sqn_xor_ak mcc mnc imsi_digits:bytes) (ea ia:N) : keys :=
+  derive H (f3 E k opc rand) (f4 E k opc rand) (f2 E k opc rand) rand sqn_xor_ak mcc mnc imsi_digits ea ia.
+(* from the sequence number the network chose *)
+Definition network_keys_sqn (k opc rand sqn mcc mnc imsi_digits:bytes) (ea ia:N) : keys :=
+  network_keys k opc rand (xor_bytes sqn (f5 E k opc rand)) mcc mnc imsi_digits ea ia.
+End Network.
+
 Example snn_001_01 : length (snn [48;48;49] [48;49]) = 32%nat. Proof. reflexivity. Qed.
+Example snn_208_93 : snn [50;48;56] [57;51] =
+  [53;71;58;109;110;99;48;57;51;46;109;99;99;50;48;56;46;51;103;112;112;110;101;116;119;111;114;107;46;111;114;103].
+Proof. reflexivity. Qed.   (* "5G:mnc093.mcc208.3gppnetwork.org" *)
